@@ -971,6 +971,7 @@ fn check_c06(ctx: &Ctx, ti: usize, r: &Ref, case: &Case) -> CaseResult {
                     if rt_class(r, ct, 0).1 {
                         match (c.down)(aj) {
                             Out::Ok(back) if back == cj => {}
+                            Out::Panic(_) => {} // totality is C01's business
                             o => res.fails.push(fail("try_from", "up-down:differs", format!("{} -> {} -> {}: {}", ct, t.name, ct, out_brief(&o)))),
                         }
                     }
